@@ -86,13 +86,14 @@ def install():
     import asl_workflow_engine.event_dispatcher as ed
     import asl_workflow_engine.state_engine_paths as sp
     import asl_workflow_engine.rest_api_asyncio as ra
+    import asl_workflow_engine.rest_api as rb
     import asl_workflow_engine.amqp_0_9_1_messaging_asyncio  # noqa
     vt, vu = _VTime(), _VUuid()
-    for m in (se, td, ra):
+    for m in (se, td, ra, rb):
         m.time = vt
-    for m in (se, ed, sp, ra, td):
+    for m in (se, ed, sp, ra, td, rb):
         m.uuid = vu
-    for m in (se, td, ra):
+    for m in (se, td, ra, rb):
         m.datetime = VDateTime
     # StateLint() costs ~100 ms to build and is stateless between validate() calls
     real_lint = ra.StateLint
@@ -126,11 +127,12 @@ def fn_arn(name):
 
 # -------------------------------------------------------------------- engine
 class Engine:
-    def __init__(self, world, instance_id, transport="asyncio"):
+    def __init__(self, world, instance_id, transport="asyncio", rest="asyncio"):
         self.world = world
         self.instance_id = instance_id
         self.owner = "engine:" + instance_id
         self.transport = transport
+        self.rest_kind = rest           # "asyncio" (Quart, rest_api_asyncio) or "blocking" (Flask, rest_api)
         self.alive = False
         self.start()
 
@@ -176,7 +178,11 @@ class Engine:
         self.state_engine = StateEngine(cfg)
         self.event_dispatcher = EventDispatcher(self.state_engine, cfg)
         self.task_dispatcher = self.state_engine.task_dispatcher
-        self.rest = ra.RestAPI(self.state_engine, self.event_dispatcher, cfg)
+        if self.rest_kind == "blocking":
+            import asl_workflow_engine.rest_api as rb
+            self.rest = rb.RestAPI(self.state_engine, self.event_dispatcher, cfg)
+        else:
+            self.rest = ra.RestAPI(self.state_engine, self.event_dispatcher, cfg)
         self.app = self.rest.create_app()
         self.client = self.app.test_client()
         self.exit = None
@@ -222,6 +228,16 @@ class Engine:
         if headers:
             h.update(headers)
         body = raw_body if raw_body is not None else json.dumps(params)
+        if self.rest_kind == "blocking":
+            resp = self.client.post("/", data=body, headers=h)
+            data = resp.get_data()
+            try:
+                js = json.loads(data) if data else None
+            except ValueError:
+                js = data.decode("utf-8", "replace")
+            fut = loop().create_future()
+            fut.set_result((resp.status_code, js))
+            return fut
 
         async def go():
             resp = await self.client.post("/", data=body, headers=h)
@@ -361,8 +377,8 @@ class World:
         for fn in self.on_notify:
             fn(self, n)
 
-    def add_engine(self, instance_id="A", transport="asyncio"):
-        e = Engine(self, instance_id, transport)
+    def add_engine(self, instance_id="A", transport="asyncio", rest="asyncio"):
+        e = Engine(self, instance_id, transport, rest)
         self.engines[instance_id] = e
         return e
 
